@@ -30,6 +30,9 @@ if "comparators" in sections or len(sys.argv) == 1:
     from rules import cmpsem
     json.dump({"_comment": "reviewed: decision tables of the hand-written comparators (result L/E/G for every assignment of the named keys to a three-element ordered domain, lexicographic)", "comparators": cmpsem.tables(prog)},
               open(os.path.join(V, "oracle", "comparators.json"), "w"), indent=1, sort_keys=True)
+if "entry" in sections or len(sys.argv) == 1:
+    from rules import c05
+    tab["entry"] = c05.entry_table(prog)
 if "cursor" in sections or len(sys.argv) == 1:
     from rules import c05
     tab["cursor"] = c05.cursor_table(prog)
